@@ -34,7 +34,11 @@ def check(repo, rep, tier):
                   'goal item out_score is not 0')
     rc.r_nbest(m, rep, 'R9.3')
     rp.r_retrieve_tree(repo, rep, 'R9.3', {'score', 'shape'})
+    rc.r_search_loop(m, rep, 'R9.3')       # only goal items (full span, allowed root, out 0) are delivered with their score
+    rc.r_guards(m, rep, 'R9.3')
     ti = rp.r_category_table(repo, rep, 'R9.3')
+    rp.r_call_locals(repo, rep, 'R9.2')    # a rule cache outliving the call hands back results (head directions) of other ids
     if ti:
         rp.r_sentence_loop(repo, rep, 'R9.3', ti)
+        rp.r_callbacks(repo, rep, 'R9.2')  # the head direction used for scoring is that of the result at the stored position
     rep.floor('agenda push sites', len(m.sites), 5)
